@@ -1,7 +1,7 @@
 (* C10 -- Real-time and non-real-time modes run the same program identically; seeded runs are deterministic.
    Property theorems only.
    Models: model/KRand.v (script programs with routine random generators, conditions, flow variables,
-   pause/resume on top of KProg/KNrt: one segment executor shared by both modes; xnrt_* = NrtMain /
+   pause/resume, yields of inf / non-numbers (never re-scheduled) on top of KProg/KNrt: one segment executor shared by both modes; xnrt_* = NrtMain /
    ClockScheduler (dd = true: the repaired code, one pending wake-up per routine and clock as in the real-time
    queues -- obs_nrt; dd = false: the code as found -- obs_nrt_as_found); xrt_* = the real-time transition system: oracle = start instant t0 + a sequence of
    (routine whose task its clock thread performs next, physical clock reading)), model/KAgree.v (obs =
@@ -280,6 +280,16 @@ Proof.
 Qed.
 Example c10_neg_in_class : prog_ok2 neg_prog.
 Proof. split; repeat constructor; simpl; try lra; try discriminate. Qed.
+(* a routine that yields inf (or None, True, '', [] ...): XHang.  In the class; never re-scheduled in either mode: the
+   child resumes at 0 and 1/8 only, its second bundle is never sent, it never ends; real time (start 4, offset 11) agrees *)
+Example c10_hang_instance :
+  obs_rt kgen 11 hang_prog 4 hang_sched = obs_nrt kgen hang_prog 5 /\
+  ob_resumes (obs_nrt kgen hang_prog 5) = [rs 0 0 0; rs 1 0 0; rs 1 1 (1#8); rs 0 1 (1#4); rs 0 2 (1#2)] /\
+  ob_ends (obs_nrt kgen hang_prog 5) = [(0%nat, 2%nat, false)].
+Proof.
+  split; [|split; apply hang_example].
+  apply (rt_nrt_agree_partial kgen 11 hang_prog 4 hang_sched hang_prog_ok); [discriminate|discriminate|]. exact (proj1 hang_example).
+Qed.
 (* the beats setter inside the routine's own wake-up: in the class; the ordered real-time execution (start 2, offset 9)
    agrees with the non-real-time run, where routine 1 resumes at 0, 1/16, 1/8, then at beat 1/2 + 1/4 = 3/4 of the rewound
    clock = 5/16 s, then 7/16 *)
